@@ -72,7 +72,7 @@ LEAF_PY = {
 PRELUDE = """import collections, dataclasses, datetime, decimal, enum, fractions, ipaddress, pathlib, re, typing, uuid
 from dataclasses import dataclass, field
 from typing import *
-from typing_extensions import TypedDict, NamedTuple, Literal, Annotated, Self
+from typing_extensions import TypedDict, NamedTuple, Literal, Annotated, Self, Unpack
 from decimal import Decimal
 from fractions import Fraction
 from uuid import UUID
@@ -118,6 +118,11 @@ def py_ann(t: T) -> str:
         return f"Tuple[{a[0]}, ...]"
     if k == "tuplefix":
         return "Tuple[" + ", ".join(a) + "]" if a else "Tuple[()]"
+    if k == "tupleu":
+        np_, mode, nm = t.extra
+        pre, mid, suf = a[:np_], a[np_:np_ + nm], a[np_ + nm:]
+        inner = f"Tuple[{mid[0]}, ...]" if mode == "var" else "Tuple[" + ", ".join(mid) + "]"
+        return "Tuple[" + ", ".join(pre + [f"Unpack[{inner}]"] + suf) + "]"
     if k == "dict":
         return f"Dict[{a[0]}, {a[1]}]"
     if k == "mapping":
@@ -341,7 +346,7 @@ class SchemaGen:
         if self.o.classes:
             choices += ["data", "data"]
         if self.o.named and not self.o.coq_only:
-            choices += ["nt", "td"]
+            choices += ["nt", "td", "tupleu"]
         if self.o.unions:
             choices += ["union"]
         if self.o.literals:
@@ -353,6 +358,14 @@ class SchemaGen:
             return T(k, [self.elem_hashable_type(d - 1)])
         if k == "tuplefix":
             return T(k, [self.gen_type(d - 1) for _ in range(r.randrange(0, 4))])
+        if k == "tupleu":
+            np_ = r.randrange(0, 3)
+            ns_ = r.randrange(0, 3)
+            mode = r.choice(["var", "var", "fix"])
+            nm = 1 if mode == "var" else r.randrange(1, 3)
+            # element types kept simple and mutually distinguishable on the wire
+            mk = lambda: r.choice([self.scalar(), self.leaf(), T("opt", [self.scalar()]), T("list", [self.scalar()])])
+            return T("tupleu", [mk() for _ in range(np_ + nm + ns_)], extra=(np_, mode, nm))
         if k in ("dict", "mapping", "ordereddict"):
             return T(k, [self.key_type(), self.gen_type(d - 1)])
         if k == "opt":
@@ -573,6 +586,11 @@ class ValueGen:
             return frozenset(self.hvalues(t.args[0], n, depth))
         if k == "tuplefix":
             return tuple(self.value(a, depth + 1) for a in t.args)
+        if k == "tupleu":
+            np_, mode, nm = t.extra
+            pre, mid, suf = t.args[:np_], t.args[np_:np_ + nm], t.args[np_ + nm:]
+            mids = [self.value(mid[0], depth + 1) for _ in range(r.choice([0, 1, 2, 3]))] if mode == "var" else [self.value(a, depth + 1) for a in mid]
+            return tuple([self.value(a, depth + 1) for a in pre] + mids + [self.value(a, depth + 1) for a in suf])
         if k in ("dict", "mapping"):
             return {kk: self.value(t.args[1], depth + 1) for kk in self.hvalues(t.args[0], n, depth)}
         if k == "ordereddict":
